@@ -262,6 +262,23 @@ func checkPremises(c *Ctx) {
 				if call, ok := ev.Instr.(*ssa.Call); ok && ev.Kind == "call" && call.Common().StaticCallee() != nil && isParse(call.Common().StaticCallee()) {
 					parses = true
 					ppos = call.Pos()
+					// what is parsed is exactly what was read: buffer[:n] with n the count Read returned for that buffer (the
+					// reused buffer's tail holds earlier packets: parsing it completes a truncated packet with stale bytes)
+					exact := false
+					if len(ev.Args) >= 2 {
+						a := ev.Args[len(ev.Args)-1]
+						if a.Op == "slice" && len(a.Args) >= 3 {
+							hi := a.Args[2]
+							if hi.Op == "extract" && hi.Name == "0" && len(hi.Args) == 1 && hi.Args[0].Op == "call" && strings.HasSuffix(hi.Args[0].Name, "Source.Read") && len(hi.Args[0].Args) >= 2 && hi.Args[0].Args[len(hi.Args[0].Args)-1].Key() == a.Args[0].Key() {
+								exact = true
+							}
+						}
+						if exact {
+							R.OK("R09.1", "packets.ReadAndParse#premise[parses-what-was-read]", call.Pos(), core.FuncName(f), "Parse is given buffer[:n], n the count of the read into that buffer")
+						} else {
+							R.FailPath("R09.1", "packets.ReadAndParse#premise[parses-what-was-read]", call.Pos(), core.FuncName(f), "Parse is given "+a.String()+", not the read buffer cut to the count Read returned: bytes left over from earlier packets are parsed as part of this one, so a truncated packet can be completed into a well-formed reply instead of being skipped", ip.Desc)
+						}
+					}
 				}
 			}
 			if !parses {
